@@ -162,7 +162,7 @@ func c02Gen(c *engine.C) engine.Case {
 		jg.Member{Field: &jg.Field{Mods: []string{"private"}, Type: "Helper", Name: "aux"}},
 		jg.Member{Field: &jg.Field{Mods: []string{"private"}, Type: "Notifier", Name: "notifier"}},
 	)
-	reuse := engine.PickTag(c, "name-reuse", "none", "param-then-local", "param-shadows-field", "locals-in-siblings", "local-shadows-field", "field-then-param-other-method", "constructor-names-then-fields-in-method")
+	reuse := engine.PickTag(c, "name-reuse", "none", "param-then-local", "param-shadows-field", "locals-in-siblings", "local-shadows-field", "field-then-param-other-method", "constructor-names-then-fields-in-method", "parameter-then-field-in-the-next-method-which-has-no-parameters")
 	if reuse == "constructor-names-then-fields-in-method" {
 		// a constructor with a parameter and a local named like fields of OTHER types, before the methods that use the fields
 		svc.Members = append(svc.Members, jg.Member{Method: &jg.Method{Mods: []string{"public"}, IsCtor: true, Name: "Svc",
@@ -232,10 +232,21 @@ func c02Gen(c *engine.C) engine.Case {
 				m.Body = append(m.Body, jg.St(jg.T("aux."), jg.S(siteR("call", "help", "Helper", "app")), jg.T("();")))
 			}
 		}
+		if reuse == "parameter-then-field-in-the-next-method-which-has-no-parameters" && mi == 0 {
+			m.Params = append(m.Params, jg.Param{Type: "Tool", Name: "aux"})
+			m.Body = append(m.Body, jg.St(jg.T("aux."), jg.S(siteR("call", "use", "Tool", "other")), jg.T("();")),
+				jg.St(jg.T("Tool helper = null;")), jg.St(jg.T("helper."), jg.S(siteR("call", "use", "Tool", "other")), jg.T("();")))
+		}
 		if !m.IsCtor {
 			m.Body = append(m.Body, jg.St(jg.T("return null;")))
 		}
 		svc.Members = append(svc.Members, jg.Member{Method: m})
+		if reuse == "parameter-then-field-in-the-next-method-which-has-no-parameters" && mi == 0 {
+			// directly behind it: a method with an empty parameter list that uses the fields of those names
+			svc.Members = append(svc.Members, jg.Member{Method: &jg.Method{Mods: []string{"public"}, Ret: "void", Name: "noArgs",
+				Body: []jg.Stmt{jg.St(jg.T("aux."), jg.S(siteR("call", "help", "Helper", "app")), jg.T("();")),
+					jg.St(jg.T("helper."), jg.S(siteR("call", "help", "Helper", "app")), jg.T("();"))}}})
+		}
 		// what follows the function: calls written there belong to no named function
 		switch engine.PickTag(c, fmt.Sprintf("after-m%d", mi), "nothing", "field-initialised-by-call", "field-initialised-by-new", "instance-initialiser", "static-initialiser", "instance-initialiser-with-a-local-named-like-a-field") {
 		case "instance-initialiser-with-a-local-named-like-a-field":
